@@ -47,3 +47,40 @@ def test_refptr():
     assert r.pointer_to([b"a/b", 3, b"m~n"]) == b"/a~1b/3/m~0n"
     assert r.unescape(b"~01") == b"~1"
     return "RFC 6901 table ok"
+
+
+def test_refpatch():
+    from oracle import refpatch as r, refjson
+    J = lambda s: refjson.parse(s.encode())
+    # RFC 6902 Appendix A
+    A = [
+        ('{"foo":"bar"}', '[{"op":"add","path":"/baz","value":"qux"}]', '{"foo":"bar","baz":"qux"}'),
+        ('{"foo":["bar","baz"]}', '[{"op":"add","path":"/foo/1","value":"qux"}]', '{"foo":["bar","qux","baz"]}'),
+        ('{"baz":"qux","foo":"bar"}', '[{"op":"remove","path":"/baz"}]', '{"foo":"bar"}'),
+        ('{"foo":["bar","qux","baz"]}', '[{"op":"remove","path":"/foo/1"}]', '{"foo":["bar","baz"]}'),
+        ('{"baz":"qux","foo":"bar"}', '[{"op":"replace","path":"/baz","value":"boo"}]', '{"baz":"boo","foo":"bar"}'),
+        ('{"foo":{"bar":"baz","waldo":"fred"},"qux":{"corge":"grault"}}', '[{"op":"move","from":"/foo/waldo","path":"/qux/thud"}]', '{"foo":{"bar":"baz"},"qux":{"corge":"grault","thud":"fred"}}'),
+        ('{"foo":["all","grass","cows","eat"]}', '[{"op":"move","from":"/foo/1","path":"/foo/3"}]', '{"foo":["all","cows","eat","grass"]}'),
+        ('{"baz":"qux","foo":["a",2,"c"]}', '[{"op":"test","path":"/baz","value":"qux"},{"op":"test","path":"/foo/1","value":2}]', '{"baz":"qux","foo":["a",2,"c"]}'),
+        ('{"baz":"qux"}', '[{"op":"test","path":"/baz","value":"bar"}]', None),
+        ('{"foo":"bar"}', '[{"op":"add","path":"/child","value":{"grandchild":{}}}]', '{"foo":"bar","child":{"grandchild":{}}}'),
+        ('{"foo":"bar"}', '[{"op":"add","path":"/baz","value":"qux","xyz":123}]', '{"foo":"bar","baz":"qux"}'),
+        ('{"foo":"bar"}', '[{"op":"add","path":"/baz/bat","value":"qux"}]', None),
+        ('{"/":9,"~1":10}', '[{"op":"test","path":"/~01","value":10}]', '{"/":9,"~1":10}'),
+        ('{"/":9,"~1":10}', '[{"op":"test","path":"/~01","value":"10"}]', None),
+        ('{"foo":["bar"]}', '[{"op":"add","path":"/foo/-","value":["abc","def"]}]', '{"foo":["bar",["abc","def"]]}'),
+        ('{"a":1}', '[{"op":"copy","from":"/a","path":"/b"}]', '{"a":1,"b":1}'),
+        ('{"a":{"x":1}}', '[{"op":"move","from":"/a","path":"/a/b"}]', None),
+        ('{"a":1,"ab":2}', '[{"op":"move","from":"/a","path":"/ab"}]', '{"ab":1}'),
+        ('[1,2,3]', '[{"op":"move","from":"/0","path":"/3"}]', None),
+        ('[1,2,3]', '[{"op":"move","from":"/0","path":"/2"}]', '[2,3,1]'),
+        ('[1,2,3]', '[{"op":"frob","path":"/0"}]', None),
+    ]
+    for d, p, want in A:
+        res, idx = r.apply(J(d), J(p))
+        if want is None:
+            assert res is None and idx is not None, (d, p, res)
+        else:
+            assert idx is None and refjson.dump(res) == refjson.dump(J(want)), (d, p, res)
+    assert refjson.dump(refjson.parse(r.encode(J('{"a\\u0001":[1,"x\\"y",null,true,1.5]}')))) == refjson.dump(J('{"a\\u0001":[1,"x\\"y",null,true,1.5]}'))
+    return "RFC 6902 appendix ok"
